@@ -281,30 +281,64 @@ def execute(case, ctx):
 
 def _constant(ctx, case, dbn, L):
     """get_constant_bn exposes the template's CPDs unchanged."""
+    from pgmpy.factors.discrete import TabularCPD
+
+    k, card = case["k"], case["card"]
+    # asked twice: the caller owns the network it was given and edits it (replaces a CPD) before asking again
+    for round_ in (0, 1):
+        if not _constant_once(ctx, case, dbn, L, round_):
+            return
+    return
+
+
+def _constant_once(ctx, case, dbn, L, round_):
+    from pgmpy.factors.discrete import TabularCPD
+
     k, card = case["k"], case["card"]
     try:
         bn = dbn.get_constant_bn()
     except Exception as e:
         ctx.fail("succeeds", f"{PROP}:raise:constant_bn:{type(e).__name__}:{exc_site(e)}", exc_brief(e))
-        return
+        return False
     ctx.checked += 1
-    ctx.event("constant_bn")
+    ctx.event("constant_bn", round_)
+    ok = _constant_check(ctx, case, bn, L, round_)
+    if ok and round_ == 0:
+        try:
+            for name in [f"{L[k - 1]}_1", f"{L[0]}_0"]:
+                old = bn.get_cpds(name)
+                c = int(old.variable_card)
+                ev = list(old.variables[1:])
+                ecard = [int(x) for x in old.cardinality[1:]]
+                ncol = int(np.prod(ecard)) if ev else 1
+                kw = {"evidence": ev, "evidence_card": ecard} if ev else {}
+                bn.remove_cpds(old)
+                bn.add_cpds(TabularCPD(name, c, [[1.0 / c] * ncol for _ in range(c)], state_names={x: list(old.state_names[x]) for x in [name] + ev}, **kw))
+            ctx.fault("object_history")
+        except Exception as e:
+            ctx.probe("constant_bn_edit_failed:" + type(e).__name__)
+    return ok
+
+
+def _constant_check(ctx, case, bn, L, round_):
+    k, card = case["k"], case["card"]
     for v in range(k):
         for t, tab, ps in ((0, case["t0"][v], [(p, 0) for p in case["par0"][v]]), (1, case["t1"][v], [tuple(x) for x in case["par1"][v]])):
             name = f"{L[v]}_{t}"
             try:
                 cpd = bn.get_cpds(name)
             except Exception as e:
-                ctx.fail("constant_bn", f"{PROP}:constant_bn_missing_node", {"node": name, "exc": exc_brief(e)})
-                return
+                ctx.fail("constant_bn", f"{PROP}:constant_bn_missing_node", {"node": name, "exc": exc_brief(e), "call": round_})
+                return False
             if cpd is None:
-                ctx.fail("constant_bn", f"{PROP}:constant_bn_missing_cpd", {"node": name})
-                return
+                ctx.fail("constant_bn", f"{PROP}:constant_bn_missing_cpd", {"node": name, "call": round_})
+                return False
             want_ev = [f"{L[p]}_{s}" for p, s in ps]
             vals = to_np(cpd.get_values())
             if list(cpd.variables[1:]) != want_ev or not close(vals, np.asarray(tab, dtype=float), atol=1e-12, rtol=1e-12):
-                ctx.fail("constant_bn", f"{PROP}:constant_bn_cpd_changed", {"node": name, "evidence": list(cpd.variables[1:]), "want_evidence": want_ev})
-                return
+                ctx.fail("constant_bn", f"{PROP}:constant_bn_cpd_changed", {"node": name, "evidence": list(cpd.variables[1:]), "want_evidence": want_ev, "call": round_})
+                return False
+    return True
 
 
 def shrink_candidates(case):
